@@ -234,18 +234,21 @@ pub struct St {
 
 /// try-init + banner on one byte string
 pub async fn try_init_case(bytes: Vec<u8>, st: &mut St, label: &str) {
-    // do not allocate absurd declared sizes in-process (that abort is covered at CLI level)
+    // a declared dictionary size far beyond the data: opened in-process under the allocation probe (the
+    // largest single request must follow the bytes that exist, not the size that is declared)
+    let mut declared_huge = false;
     if bytes.len() >= 14 {
         let ds = u64::from_le_bytes(bytes[6..14].try_into().unwrap());
-        if ds < u64::MAX - 100 && ds > (64 << 20) {
-            *st.kinds.entry("skipped-huge-declared-size".into()).or_default() += 1;
-            return;
+        if ds > (64 << 20) {
+            declared_huge = true;
+            *st.kinds.entry("huge-declared-size-under-allocation-probe".into()).or_default() += 1;
         }
     }
     let req = format!("try-init {}", h::hex(&bytes));
     // announced first: if the process dies (abort) the orchestrator knows on which input
     println!("TRY\t{}", req);
     let b2 = bytes.clone();
+    h::alloc_probe::reset();
     let res = tokio::spawn(async move {
         match Archive::try_init(IoReader::new(Cursor::new(b2))).await {
             Ok(a) => {
@@ -294,6 +297,15 @@ pub async fn try_init_case(bytes: Vec<u8>, st: &mut St, label: &str) {
         Ok(x) => x,
         Err(_) => ("panic".to_string(), None, None),
     };
+    if declared_huge {
+        let biggest = h::alloc_probe::max_request();
+        if biggest > 2 * bytes.len() + (2 << 20) {
+            h::emit_oracle_fail(
+                "allocation-follows-the-declared-size-not-the-data",
+                &format!("{} :: largest single allocation request {} bytes for a {} byte file", req, biggest, bytes.len()),
+            );
+        }
+    }
     let class = summary.split(' ').next().unwrap().to_string();
     *st.kinds.entry(format!("{}:{}", label, class)).or_default() += 1;
     if class == "panic" {
